@@ -278,6 +278,54 @@ func norm(v any, o wopts) (any, bool) {
 	return v, true
 }
 
+// hasNil: a nil anywhere in the tree
+func hasNil(v any) bool {
+	switch t := v.(type) {
+	case nil:
+		return true
+	case []any:
+		for _, x := range t {
+			if hasNil(x) {
+				return true
+			}
+		}
+	case map[string]any:
+		for _, x := range t {
+			if hasNil(x) {
+				return true
+			}
+		}
+	}
+	return false
+}
+
+// hasEmpty: an empty string, array or object anywhere in the tree
+func hasEmpty(v any) bool {
+	switch t := v.(type) {
+	case string:
+		return len(t) == 0
+	case []any:
+		if len(t) == 0 {
+			return true
+		}
+		for _, x := range t {
+			if hasEmpty(x) {
+				return true
+			}
+		}
+	case map[string]any:
+		if len(t) == 0 {
+			return true
+		}
+		for _, x := range t {
+			if hasEmpty(x) {
+				return true
+			}
+		}
+	}
+	return false
+}
+
 func numEqual(want, got any) bool {
 	switch w := want.(type) {
 	case int64:
@@ -797,7 +845,7 @@ func runC10() {
 			}
 		}
 		writers := []string{"sen.String", "sen.Bytes", "sen.Write", "pretty.SEN", "pretty.WriteSEN"}
-		randOpts := func(wr string) wopts {
+		randOpts := func(wr string, v any) wopts {
 			o := wopts{writer: wr, html: g.r.Intn(3) == 0, limit: lib.Pick(g.r, []int{0, 1, 2, 3, 7, 64, 1024})}
 			if strings.HasPrefix(wr, "sen.") {
 				o.indent = lib.Pick(g.r, []int{0, 0, 0, 1, 2, 3, 4})
@@ -806,7 +854,10 @@ func runC10() {
 				o.omitNil = g.r.Intn(3) == 0
 				o.omitEmpty = g.r.Intn(3) == 0
 			} else {
-				// omission is C04's subject for pretty (known findings there): not varied here
+				// how pretty omits members is C04's subject (known findings there); here the omission options
+				// are switched on only where they have nothing to omit and must therefore change nothing
+				o.omitNil = !hasNil(v) && g.r.Intn(3) == 0
+				o.omitEmpty = !hasEmpty(v) && g.r.Intn(3) == 0
 				o.width = lib.Pick(g.r, []int{1, 10, 20, 40, 80, 80, 120, 200})
 				o.maxDepth = lib.Pick(g.r, []int{1, 2, 3, 3, 4, 6})
 				o.align = g.r.Intn(3) == 0
@@ -817,9 +868,57 @@ func runC10() {
 		for i := 0; i < nTrees; i++ {
 			v := g.tree(1 + g.r.Intn(4))
 			for k := 0; k < 3; k++ {
-				addT(v, randOpts(lib.Pick(g.r, writers)))
+				addT(v, randOpts(lib.Pick(g.r, writers), v))
 			}
 			rep.Count("stream.random_trees", 1)
+		}
+		// omission: every subset of {"" [] {} nil} (and two members that stay) as member values of an object that is
+		// the document, an array element, a member value and a member two levels down, under EVERY combination of
+		// writer x indent x tab x Sort x OmitNil x OmitEmpty for the sen writers; for the pretty writers OmitNil on
+		// the nil-free and OmitEmpty on the empty-free trees of the family (where they must be no-ops)
+		if on("omit") {
+			emptyish := []struct {
+				k string
+				v any
+			}{{"s", ""}, {"a", []any{}}, {"m", map[string]any{}}, {"n", nil}}
+			for mask := 0; mask < 1<<len(emptyish); mask++ {
+				mk := func() map[string]any {
+					m := map[string]any{"x": "v", "i": int64(1)}
+					for bi, e := range emptyish {
+						if mask&(1<<bi) != 0 {
+							m[e.k] = e.v
+						}
+					}
+					return m
+				}
+				shapes := []any{mk(), []any{mk(), "z"}, map[string]any{"o": mk(), "y": true},
+					map[string]any{"p": map[string]any{"q": mk()}, "e": []any{mk()}}}
+				for _, v := range shapes {
+					for _, wr := range writers {
+						if strings.HasPrefix(wr, "sen.") {
+							for _, ind := range []int{0, 2} {
+								for _, tab := range []bool{false, true} {
+									for bits := 0; bits < 8; bits++ {
+										addT(v, wopts{writer: wr, indent: ind, tab: tab, sort: bits&1 != 0, omitNil: bits&2 != 0, omitEmpty: bits&4 != 0})
+									}
+								}
+							}
+						} else {
+							for bits := 0; bits < 4; bits++ {
+								o := wopts{writer: wr, width: 80, maxDepth: 3, sort: true, omitNil: bits&1 != 0, omitEmpty: bits&2 != 0}
+								if (o.omitNil && hasNil(v)) || (o.omitEmpty && hasEmpty(v)) {
+									continue
+								}
+								addT(v, o)
+								o.width, o.maxDepth, o.align = 20, 2, true
+								addT(v, o)
+							}
+						}
+					}
+					rep.Count("stream.omission_family", 1)
+				}
+			}
+			rep.Exhaustive = append(rep.Exhaustive, "omission: 16 subsets of {\"\", [], {}, nil} as member values x 4 positions (document, array element, member value, two levels down) x sen.String/Bytes/Write x indent {0,2} x tab x Sort x OmitNil x OmitEmpty; pretty.SEN/WriteSEN x OmitNil (nil-free trees) x OmitEmpty (empty-free trees) x two widths")
 		}
 		// every pool string alone, in an array, as a key and as a member value, through every writer
 		for _, s := range append(append([]string{}, strPool...), numberLike...) {
@@ -862,5 +961,5 @@ func runC10() {
 		}
 		tflush()
 	})
-	rep.Rule = "strings: AppendSENString then sen.Parser.Parse in value, key and top-level position, expected: the same string (invalid UTF-8 replaced by U+FFFD); trees: seeded random trees (all kinds; strings from a pool of reserved words, number-like and sign spellings, operators, delimiters, quotes, comment markers, control bytes, invalid UTF-8, long strings; int64 extremes; finite float shapes), the pool through every writer, deep nesting past the indentation clamps; each tree x options through sen.String, sen.Bytes, sen.Write, pretty.SEN, pretty.WriteSEN; oracle: sen.Parse(text) equals the tree (strings stay strings, numbers by value, keys exact, members omitted per OmitNil/OmitEmpty); tie: model writer bytes == Go bytes (AppendSENString always; the tight writer when the member order is determined), model parser outcome == sen.Parse outcome on every written text"
+	rep.Rule = "strings: AppendSENString then sen.Parser.Parse in value, key and top-level position, expected: the same string (invalid UTF-8 replaced by U+FFFD); trees: seeded random trees (all kinds; strings from a pool of reserved words, number-like and sign spellings, operators, delimiters, quotes, comment markers, control bytes, invalid UTF-8, long strings; int64 extremes; finite float shapes), the pool through every writer, deep nesting past the indentation clamps; each tree x options (indent, tab, Sort, OmitNil, OmitEmpty, HTML-safe, WriteLimit for the sen writers; width, depth, align and — where they have nothing to omit — OmitNil/OmitEmpty for the pretty writers) through sen.String, sen.Bytes, sen.Write, pretty.SEN, pretty.WriteSEN; an exhaustive omission family (\"\", [], {}, nil members x every option combination); oracle: sen.Parse(text) equals the tree (strings stay strings, numbers by value, keys exact, members omitted per OmitNil/OmitEmpty); tie: model writer bytes == Go bytes (AppendSENString always; the tight writer when the member order is determined), model parser outcome == sen.Parse outcome on every written text"
 }
